@@ -609,3 +609,281 @@ NEUTRAL = [
 ]
 
 
+# ------------------------------------------------------------------------------------------------- oracle (independent of the model)
+#
+# The property stated directly: an independent reference of what a revision-guarded persistent map does.
+#   ref[id]   payload stored under id            (what add/lookup/iteration/discard must agree with)
+#   ver[id]   number of writes to id so far, by anyone
+#   known[id] the version the SDK process was last told about by a successful answer (None: never / after its own delete)
+# Expected outcomes are computed from these three only; the server's actual documents (request log / document table of the
+# fake CouchDB) must equal `ref` after every call.
+
+COUCH_ERRORS = ("CouchDBConflictError", "CouchDBResponseError", "CouchDBConnectionError", "CouchDBServerError")
+
+
+def kind_of(out) -> str:
+    if out[0] == "raise":
+        e = out[1]
+        return "raise:" + (e if isinstance(e, str) else e[0])
+    if out[0] == "handles":
+        return "handles" if out[2] is None else "handles-stopped:" + (out[2] if isinstance(out[2], str) else out[2][0])
+    return out[0]
+
+
+def fault_allows(k: str, f, out) -> bool:
+    """May operation `k` end like `out` when one of its requests was answered with fault `f`?"""
+    kd = kind_of(out)
+    err = kd.split(":", 1)[1] if ":" in kd else None
+    if err in COUCH_ERRORS:
+        return True
+    status = f[1] if f[0] == "status" else None
+    if err == "KeyError":
+        return status == 404 or (status == 409 and k == "add")
+    if k == "contains" and out == ["bool", False]:
+        return status == 404
+    return False
+
+
+def check_ops(ops: List[List[Any]], mode: str = "pool", impl: Optional[Impl] = None) -> Optional[C.Failing]:
+    own = impl is None
+    impl = impl or Impl(mode)
+    try:
+        impl.reset()
+        ref: Dict[str, Any] = {}
+        ver: Dict[str, int] = {}
+        known: Dict[str, Optional[int]] = {}
+
+        def write(i, v):
+            ver[i] = ver.get(i, 0) + 1
+            if v is None:
+                ref.pop(i, None)
+            else:
+                ref[i] = v
+
+        def server_docs():
+            return {bytes(d[0]).decode("utf-8", "replace"): d[2] for d in impl.http.docs_view() if d[2] is not None}
+
+        for oi, op in enumerate(ops):
+            k = op[0]
+            prefix = ops[: oi + 1]
+            plan = list(op[-1]) if k in PLANNED else []
+            obj = impl.handles.get(op[1]) if k in ("modify", "drop", "add", "commit", "update", "discard") else None
+            pre = (obj.id, Impl.dnum(obj), obj.source != "") if obj is not None else None
+            docs_before = server_docs()
+            r = impl.step(op)
+            out, log = r[0], r[1]
+            kd = kind_of(out)
+
+            def fail(sig, what, required=None):
+                return C.Failing(f"couch:{sig}", what, prefix, {"outcome": out, "requests": len(log)}, required)
+
+            if k in ("mk", "modify", "drop"):
+                continue
+            if k == "ext_put":
+                write(op[1], op[2])
+            elif k == "ext_delete":
+                if op[1] in ref:
+                    write(op[1], None)
+            elif obj is None and k in ("add", "commit", "update", "discard"):
+                continue                                   # not a live object: nothing to judge
+            else:
+                # ------------------------------------------------ the requests the call is expected to make, and its plan
+                if k in ("add", "commit", "update", "discard"):
+                    i, v, bound = pre
+                else:
+                    i, v, bound = (op[1] if k in ("get", "contains") else None), None, True
+                if k in ("commit", "update") and not bound:
+                    if out != ["unit"] or log:
+                        return fail(f"{k}:unbound", f"{k} of an object without source gave {out} with {len(log)} requests", ["unit"])
+                    continue
+                nreq = len(log)
+                fpos = next((n for n, f in enumerate(plan[:nreq]) if f is not None), None)
+                f = plan[fpos] if fpos is not None else None
+                # neutral zone: a 2xx "fault" on a HEAD request (there is no body that could be non-JSON)
+                if f is not None and f[0] == "status" and 200 <= f[1] < 300 and log[fpos][0] == "HEAD":
+                    f_neutral = True
+                else:
+                    f_neutral = False
+                present = i in ref if i is not None else None
+                fresh = present and known.get(i) == ver.get(i)
+                exp: List[Any] = []          # acceptable outcome kinds
+                # ------------------------------------------------ expected behaviour
+                if k == "add":
+                    if f is None:
+                        if present:
+                            exp = ["raise:KeyError"]
+                        else:
+                            exp = ["unit"]; write(i, v); known[i] = ver[i]
+                    elif f[-1] and not present:
+                        write(i, v)
+                elif k == "get":
+                    if f is None:
+                        if present:
+                            exp = ["handle"]; known[i] = ver[i]
+                        else:
+                            exp = ["raise:KeyError"]
+                elif k == "update":
+                    if f is None:
+                        if present:
+                            exp = ["unit"]; known[i] = ver[i]
+                        else:
+                            exp = ["raise:KeyError"]
+                elif k == "commit":
+                    if known.get(i) is None:
+                        exp = ["raise:CouchDBConflictError"]       # nothing to compare with: must be refused without a write
+                        f = None if nreq == 0 else f
+                    elif f is None:
+                        if not present:
+                            exp = ["raise:CouchDBConflictError", "raise:KeyError"]
+                        elif not fresh:
+                            exp = ["raise:CouchDBConflictError"]
+                        else:
+                            exp = ["unit"]; write(i, v); known[i] = ver[i]
+                    elif f[-1] and fresh:
+                        write(i, v)
+                elif k == "discard":
+                    safe = op[2]
+                    if safe and known.get(i) is None:
+                        exp = ["raise:CouchDBConflictError"]
+                        f = None if nreq == 0 else f
+                    elif f is None:
+                        if not present:
+                            exp = ["raise:KeyError"] + (["raise:CouchDBConflictError"] if safe else [])
+                        elif safe and not fresh:
+                            exp = ["raise:CouchDBConflictError"]
+                        else:
+                            exp = ["unit"]; write(i, None); known[i] = None
+                    else:
+                        is_delete = log[fpos][0] == "DELETE"
+                        if f[-1] and is_delete and present and (fresh or not safe):
+                            write(i, None)
+                elif k == "contains":
+                    if f is None:
+                        exp = ["bool"]
+                        if out != ["bool", bool(present)]:
+                            return fail("map:contains", f"contains({i!r}) = {out}, the map says {present}", ["bool", bool(present)])
+                elif k == "len":
+                    if f is None:
+                        exp = ["nat"]
+                        if out != ["nat", len(ref)]:
+                            return fail("map:len", f"len = {out}, the map holds {len(ref)} objects", ["nat", len(ref)])
+                elif k == "iter":
+                    got = None
+                    if out[0] == "handles":
+                        got = [(impl.handles[x].id, Impl.dnum(impl.handles[x])) for x in out[1]]
+                        for (gi, _) in got:
+                            known[gi] = ver.get(gi)
+                    if f is None:
+                        exp = ["handles"]
+                        if got is None or sorted(got) != sorted(ref.items()):
+                            return fail("map:iter", f"iteration gave {got if got is not None else out}, the map holds {sorted(ref.items())}",
+                                        sorted(ref.items()))
+                # ------------------------------------------------ verdict on the outcome
+                if f is not None:
+                    if not f_neutral:
+                        if k == "iter" and out[0] == "handles":
+                            if out[2] is None:
+                                return fail("fault:iter:swallowed", f"a request of the iteration was answered with {f} but it ended normally",
+                                            "a CouchDB error")
+                            if not fault_allows(k, f, ["raise", out[2]]):
+                                return fail(f"fault:iter:{kind_of(['raise', out[2]])}", f"fault {f} surfaced as {out[2]}", "a CouchDB error type")
+                        elif not fault_allows(k, f, out):
+                            what = "returned normally" if out[0] != "raise" else f"raised {out[1]}"
+                            return fail(f"fault:{k}:{kd}", f"{k}: a request was answered with {f} but the call {what}", "a CouchDB error type")
+                elif exp and kd not in exp:
+                    if k == "discard" and out[0] == "raise" and i in docs_before and i not in server_docs():
+                        return fail("phantom:discard:raised-after-server-delete",
+                                    f"discard of {i!r} raised {out[1]} although the document had just been deleted on the server by this call",
+                                    ["unit"])
+                    if k in ("commit", "discard") and kd == "unit" and "raise:CouchDBConflictError" in exp:
+                        return fail(f"lost-update:{k}", f"{k} of {i!r} from a replica whose known version {known.get(i)} is not the "
+                                    f"server's {ver.get(i)} was accepted", exp)
+                    return fail(f"{k}:expected-{exp[0]}:got-{kd}", f"{op} gave {out}; a revision-guarded map gives {exp}", exp)
+                # ------------------------------------------------ post-conditions on the objects
+                if f is None and kd in exp:
+                    if k == "get" and kd == "handle":
+                        o = impl.handles[out[1]]
+                        if o.id != i or Impl.dnum(o) != ref[i]:
+                            return fail("map:get:content", f"get({i!r}) returned id={o.id!r} payload {Impl.dnum(o)}; the map holds {ref[i]}", ref[i])
+                        if o.source == "":
+                            return fail("phantom:get:unbound", f"get({i!r}) returned an object without source")
+                    if k == "update" and kd == "unit" and Impl.dnum(obj) != ref[i]:
+                        return fail("map:update:content", f"after update() the object holds {Impl.dnum(obj)}; the map holds {ref[i]}", ref[i])
+                    if k == "add":
+                        if kd == "unit" and obj.source == "":
+                            return fail("phantom:add:unbound", "add returned normally but the object has no source")
+                        if kd != "unit" and (obj.source != "") != bound:
+                            return fail("phantom:add:bound-after-failure", "a rejected add changed the object's source")
+                    if k == "discard" and kd == "unit" and obj.source != "":
+                        return fail("phantom:discard:source", f"the discarded object keeps source {obj.source!r}")
+            # ---------------------------------------------------- the server's documents are exactly the reference map
+            docs = server_docs()
+            if docs != ref:
+                return C.Failing("couch:server-state", f"after {op[0]} the server holds {docs}; a revision-guarded map would hold {ref}",
+                                 prefix, docs, ref)
+        return None
+    finally:
+        if own:
+            impl.close()
+
+
+def oracle(ctx: C.Ctx, cov: C.Coverage) -> List[C.Failing]:
+    rng = random.Random(f"C16:{ctx.seed}")
+    hist, n_ex, n_grid, _ = gen_histories(ctx, rng)
+    out: List[C.Failing] = []
+    sigs = set()
+    impl = Impl("pool")
+    try:
+        # the oracle judges concrete op lists; they are produced by running the macros once
+        for (ids, macros, fin) in hist:
+            ops, _ = run_history(impl, ids, macros, fin)
+            f = check_ops(ops, impl=impl)
+            if f and f.sig not in sigs:
+                sigs.add(f.sig)
+                f.case = minimise(f, impl)
+                out.append(f)
+        cov.extra["oracle_histories"] = len(hist)
+    finally:
+        impl.close()
+    if ctx.tier == "thorough":
+        lrng = random.Random(f"C16:lb-oracle:{ctx.seed}")
+        impl = Impl("loopback")
+        try:
+            for n in range(300):
+                n_ids = lrng.choice([1, 2, 3])
+                ids = lrng.sample(IDS_WIDE, n_ids)
+                macros = random_macros(lrng, n_ids, lrng.randint(3, 14), 0.0)
+                ops, _ = run_history(impl, ids, macros, True)
+                f = check_ops(ops, impl=impl)
+                if f and f.sig not in sigs:
+                    sigs.add(f.sig)
+                    f.what += " (through real sockets on 127.0.0.1)"
+                    out.append(f)
+        finally:
+            impl.close()
+    return out
+
+
+def minimise(f: C.Failing, impl: Impl) -> List[Any]:
+    def fails(ops):
+        g = check_ops(ops, impl=impl)
+        return g is not None and g.sig == f.sig
+    return C.ddmin(f.case, fails, max_tests=150)
+
+
+def search(ctx: C.Ctx, disagreements, broken) -> List[C.Failing]:
+    out = []
+    sigs = set()
+    for d in disagreements:
+        if isinstance(d.case, list) and d.case and isinstance(d.case[0], list) and d.case[0] and d.case[0][0] != "line":
+            f = check_ops(d.case)
+            if f and f.sig not in sigs:
+                sigs.add(f.sig); out.append(f)
+    if out:
+        return out
+    big = C.Ctx(ctx.prop, "thorough", ctx.seed + 1, random.Random(), ctx.t0, ctx.jobs)
+    return oracle(big, C.Coverage())
+
+
+def replay(case) -> Optional[C.Failing]:
+    return check_ops(case)
